@@ -7,6 +7,9 @@ import json, os, random, hashlib
 from concurrent.futures import ThreadPoolExecutor
 import vlib
 
+import re
+EV_RE = re.compile(r'"ev":"([A-Za-z]+)"')
+
 ALL = {"har", "C01", "C03", "C04", "C05", "C14"}
 
 BASE = dict(Kinds=["sock", "pipeR"], NT=0, Limit=2, MaxOps=3, MaxCmds=5, HBudget=1, MaxData=1, MaxTick=0,
@@ -45,6 +48,13 @@ def replay_and_validate(ck, sw, name, beh, focus, label, env=None):
     ck.cov["evaluations"] += summ["scenarios"]
     ck.cov["distinct_nontrivial"] += summ["nontrivial"]
     ck.cov["traces_validated_against_impl"] += summ["scenarios"] - len({b[0] for b in bads})
+    # how often each kind of event (= antecedent of the monitor's rules) occurred in real traces
+    counts = ck.cov.setdefault("real_trace_event_counts", {})
+    with open(trace) as f:
+        for line in f:
+            m = EV_RE.search(line)
+            if m:
+                counts[m.group(1)] = counts.get(m.group(1), 0) + 1
     if summ.get("drift"):
         ck.cov["impl_drift"].append({"config": label, "scenarios_differing_from_model_prediction": summ["drift"],
                                      "of": summ["scenarios"], "first": summ.get("first_drift")})
